@@ -34,7 +34,15 @@ def shapes(maxd):
     for c in range(1, maxd + 1):
         for r in range(1, maxd + 1):
             out.append((c, r))
+    # a few shapes that cross typical fast-path thresholds (8, 16 cells per line; 32 / 64 in the larger scope): a change that
+    # only misbehaves for "wide enough" or "tall enough" arrays is invisible on the small exhaustive shapes
+    if maxd >= 3:
+        out += BIG_SHAPES_THOROUGH if maxd >= 5 else BIG_SHAPES_QUICK
     return out
+
+
+BIG_SHAPES_QUICK = [(9, 2), (2, 9), (17, 3), (3, 17)]
+BIG_SHAPES_THOROUGH = BIG_SHAPES_QUICK + [(33, 2), (2, 33), (65, 3), (3, 65)]
 
 
 def windows(C, R, extra=0):
@@ -1192,7 +1200,9 @@ RULES = {
 
 
 def rule(pid, tier):
-    return RULES.get(pid, "see DESIGN.md §6/" + pid) + f"; tier={tier}"
+    return (RULES.get(pid, "see DESIGN.md §6/" + pid) +
+            "; wherever this says 'all shapes <= NxN' the threshold-crossing shapes 9x2, 2x9, 17x3, 3x17 (larger scope: also 33x2, 2x33, 65x3, 3x65) are included"
+            + f"; tier={tier}")
 
 
 def exhaustive(pid, tier):
